@@ -12,1040 +12,1131 @@ Definition show_fres (r : fres) : string :=
   end.
 Definition check (rs : list rune) : string := digest (show_fres (format_res rs)).
 Definition full (rs : list rune) : string := show_fres (format_res rs).
-Eval vm_compute in ("<<<M198>>>" ++ check (runes_of_ascii "root packet int {
-// @lengthOf(
-// " ++ [27880; 37322]%N ++ runes_of_ascii "
-@calculatedFrom( ""packet"")match repeatCount as asx {// packet A { u8 x, }
-65535:int ,
-"""":
-    packetx
-, [ 1, ""it's"", 007 , 3,
-    ""a\\"" , 65535 ] : o,
-[ 7 , 1 ]:
-    len [ ""abc""	,""" ++ [28040; 24687]%N ++ runes_of_ascii """ ] : u
-,} ,// packet A { u8 x, }
-@rightPad ( ' ' ) // " ++ [27880; 37322]%N ++ runes_of_ascii "
-len
-    body `{ , }` , }packet repeatCount { string
-trueish
-,@tag(
-0 )	repeat
-tag/// triple
-`{ , }` , // `tick` ""quote"" 'q'
-@tag(255 // @lengthOf(
-) match packetx as
-string_
-    {
-10 :roots, }//
-,
-@leftPad
-(
-'\x00'	)
-    @tag( 7 ) repeat i8 // packet A { u8 x, }
-rootA
-/// triple
-// " ++ [128512]%N ++ runes_of_ascii " emoji
-`it's` , uint8x tag`a\` ,
-char[] Z9_ @calculatedFrom( //x
-""" ++ [233]%N ++ runes_of_ascii "t" ++ [233]%N ++ runes_of_ascii """
-    )
-, repeat float32
-trueish	, @leftPad ( /// triple
-'\x00'	)	i64_
-    @calculatedFrom( ""x y""
-    ) //
-, repeat f32 Packet ,  }
-    packet u
-    // c
-    {int64 pack@lengthOf(metadata ) ,	repeat
-    char[//	t
-0123456789 ] int
-    ``
-    , @lengthOf(
-    Header  )@calculatedFrom(""`tick`""
-)	float
-    trueish , @calculatedFrom(	""`tick`""
-    // a // b
-    ) stringy ,// " ++ [128512]%N ++ runes_of_ascii " emoji
-repeat Logon  `it's`  ,
-int32  Z9_ @calculatedFrom(
-""\n""), match// c
-u8x as falsey {
-255 : f32a ,
-00:packetx
-, } ,
-zchar[	0 ] roots , @tag( 00) Logon {
-    i64_
-@lengthOf( MetaDataX //
-) ``
-    , repeat body
-MetaDataX `it's`, x { string rootA ``
-    // a // b
-    , repeat options1 f32a , }//
-, Pad
-, // `tick` ""quote"" 'q'
-} , @calculatedFrom( ""1""
-    // packet A { u8 x, }
-    )@lengthOf(T ) char[
-7 ]	pack	`{ , }`	, } MetaData u {
-} /// triple")).
-Eval vm_compute in ("<<<M384>>>" ++ check (runes_of_ascii "options {
-	StringPrefixLenType = u16;
-	ArrayPrefixLenType = u16;
-}
-
-packet SampleBinary {
-	uint16 MsgType `" ++ [28040; 24687; 31867; 22411]%N ++ runes_of_ascii "`,
-	u16 BodyLenght @lengthOf(Body) `" ++ [28040; 24687; 20307; 38271; 24230]%N ++ runes_of_ascii "`,
-	match MsgType as Body {
-		1 : Logon,
-		2 : Logout,
-		3 : Heartbeat,
-		4 : RiskControlRequest,
-		5 : RiskControlResponse,
-	},
-		@calculatedFrom(""CRC32"")
-	u32 Ckecksum `" ++ [26657; 39564; 21644]%N ++ runes_of_ascii "`,
-}
-
-packet Logon {
-	 @leftPad('0')
-	char[10] UserName `" ++ [29992; 25143; 21517]%N ++ runes_of_ascii "`,
-	string Password `" ++ [23494; 30721]%N ++ runes_of_ascii "`,
-	uint64 ClientId `" ++ [23458; 25143; 31471]%N ++ runes_of_ascii "ID`,
-	u16 HeartbeatInterval `" ++ [24515; 36339; 38388; 38548]%N ++ runes_of_ascii "`,
-}
-
-packet Logout {
-	  @rightPad('0')
-	char[10] UserName `" ++ [29992; 25143; 21517]%N ++ runes_of_ascii "`,
-	uint64 ClientId `" ++ [23458; 25143; 31471]%N ++ runes_of_ascii "ID`,
-}
-
-packet Heartbeat {
-}
-
-packet RiskControlRequest {
-	string UniqueOrderId `" ++ [21807; 19968; 35746; 21333; 21495]%N ++ runes_of_ascii "`,
-	char[16] ClOrdID `" ++ [23458; 25143; 35746; 21333; 21495]%N ++ runes_of_ascii "`,
-	char[3] MarketID `" ++ [24066; 22330]%N ++ runes_of_ascii "id`,
-	char[12] SecurityID `" ++ [35777; 21048; 20195; 30721]%N ++ runes_of_ascii "`,
-	char Side `" ++ [20080; 21334; 26041; 21521]%N ++ runes_of_ascii "`,
-	char OrderType `" ++ [35746; 21333; 31867; 22411]%N ++ runes_of_ascii "`,
-	u64 Price `" ++ [20215; 26684]%N ++ runes_of_ascii "`,
-	u32 Qty `" ++ [25968; 37327]%N ++ runes_of_ascii "`,
-	repeat string ExtraInfo `" ++ [38468; 21152; 20449; 24687]%N ++ runes_of_ascii "`,
-	repeat SubOrder {
-			char[16] ClOrdID `" ++ [23376; 35746; 21333; 21495]%N ++ runes_of_ascii "`,
-			u64 Price `" ++ [23376; 35746; 21333; 20215; 26684]%N ++ runes_of_ascii "`,
-			u32 Qty `" ++ [23376; 35746; 21333; 25968; 37327]%N ++ runes_of_ascii "`,
-		},
-}
-
-packet RiskControlResponse {
-	string UniqueOrderId `" ++ [21807; 19968; 35746; 21333; 21495]%N ++ runes_of_ascii "`,
-	i32 Status `" ++ [29366; 24577]%N ++ runes_of_ascii "`,
-	string Msg `" ++ [32467; 26524; 20449; 24687]%N ++ runes_of_ascii "`,
-	repeat Detail,
-}
-
-packet Detail {
-	string RuleName `" ++ [35268; 21017; 21517; 31216]%N ++ runes_of_ascii "`,
-	u16 Code `" ++ [21407; 22240; 20195; 30721]%N ++ runes_of_ascii "`,
-}")).
-Eval vm_compute in ("<<<M1389>>>" ++ check (runes_of_ascii "options { LittleEndian
-    // c2
-=
-    // c3
-true // c4a
-  // c4b
-;
-    // c5
-} // c6a
-  // c6b
-packet // c7a
-  // c7b
-Logon { // c9
-u8
-    // c10
-x // c11
-, // c12
-} // c13a
-  // c13b
-packet // c14
-Logout
-    // c15
-{ u16 // c17a
-  // c17b
-reason
-    // c18
-,
-    // c19
-} root // c21a
-  // c21b
-packet // c22
-Frame
-    // c23
-{ // c24
-u64
-    // c25
-Kind
-    // c26
-, // c27
-u64 Kind2 // c29a
-  // c29b
-,
-    // c30
-match // c31a
-  // c31b
-Kind
-    // c32
-as
-    // c33
-Body // c34a
-  // c34b
-{ // c35a
-  // c35b
-1 // c36a
-  // c36b
-: // c37a
-  // c37b
-Logon // c38
-,
-    // c39
-[ // c40
-2
-    // c41
-, // c42
-3 // c43a
-  // c43b
-, // c44
-4
-    // c45
-] :
-    // c47
-Logout // c48
-,
-    // c49
-100
-    // c50
-: // c51
-Logon // c52a
-  // c52b
-,
-    // c53
-} // c54
-,
-    // c55
-match // c56a
-  // c56b
-Kind2 // c57
-as Trailer // c59
-{ // c60
-0
-    // c61
-: // c62a
-  // c62b
-Logout , } // c65
-,
-    // c66
-} ")).
-Eval vm_compute in ("<<<M168>>>" ++ check (runes_of_ascii "options
-//x
-// @lengthOf(
-{
-    Foo =""// no comment""
-/// triple
-//	t
-; }
-packet float {
-} packet
-    len { @lengthOf(
-    _x ) stringy{
-    metadata	@calculatedFrom( ""a\\"" )
-, } ,
-//x
-//
-}	packet asx {
-@tag( 0 ) repeat float64
-A`say ""hi""` ,
-//
-// trailing space 
-i16 int
-    `say ""hi""` , @calculatedFrom( """ ++ [128512]%N ++ runes_of_ascii """) lengthOf Header `two words` ,
-f32a
-    zchar , @rightPad
-    ( '0'
-)repeat string_
-    // packet A { u8 x, }
-    chars ``  , @tag( 4294967296)
-    @calculatedFrom( ""a	b"" )repeat
-    msg_type,  @leftPad( ) repeat f64 _x ,	repeat As { Logon @lengthOf(
-calculatedFrom) `two words` ,
-    repeat u64 o `u8 x,`	, } , @calculatedFrom(
-""packet"" ) repeat // @lengthOf(
-uint8 u ,} packet
-uint8x{@leftPad ( '0'
-    )
-//	t
-//x
-zchar[
-// packet A { u8 x, }
-// " ++ [27880; 37322]%N ++ runes_of_ascii "
-255
-    ]	metadata `a\`
-    ,//
-} // `tick` ""quote"" 'q'")).
-Eval vm_compute in ("<<<M1117>>>" ++ check (runes_of_ascii "// top
-MetaData
-    // c0
-Packet
-    // c1
-{
-    // c2
-}
-    // c3
+Eval vm_compute in ("<<<M1814>>>" ++ check (runes_of_ascii "
 packet
-    // c4
-charz
-    // c5
-{
-    // c6
-Foo
-    // c7
-asx
-    // c8
-`it's`
-    // c9
-,
-    // c10
-@lengthOf(
-    // c11
-T
-    // c12
-)
-    // c13
-@calculatedFrom(
-    // c14
-""""
-    // c15
-)
-    // c16
-@calculatedFrom(
-    // c17
-""x y""
-    // c18
-)
-    // c19
-zchar[
-    // c20
-007
-    // c21
-]
-    // c22
-repeatCount
-    // c23
-@lengthOf(
-    // c24
-int
-    // c25
-)
-    // c26
-`a\`
-    // c27
-,
-    // c28
-i8
-    // c29
-string_
-    // c30
-,
-    // c31
-repeat
-    // c32
-options1
-    // c33
-Pad
-    // c34
-,
-    // c35
-}
-    // c36
-root
-    // c37
-packet
-    // c38
-Packet
-    // c39
-{
-    // c40
-int8
-    // c41
-float
-    // c42
-`doc`
-    // c43
-,
-    // c44
-}
-    // c45
-")).
-Eval vm_compute in ("<<<M1906>>>" ++ check (runes_of_ascii "packet
-	metadata
-    {
-@rightPad
+    falsey	{	@leftPad
+(  )  int8
 
-( )
+    uint8x
+, zchar[
+10
 
-    zchar[
-    //	t
-  	// `tick` ""quote"" 'q'
-
-	0123456789 
-] i64_
-// @lengthOf(
-@calculatedFrom(
-
-    ""\n""
-)
-
-    ,
-@leftPad ( ' '  // " ++ [27880; 37322]%N ++ runes_of_ascii "
-	  ) 
-zchar[  // `tick` ""quote"" 'q'
-    255 ]	MetaDataX`{ , }`// a // b
-  , @rightPad( ' '
-    )
-@calculatedFrom( ""abc""
-)	// " ++ [128512]%N ++ runes_of_ascii " emoji
-@lengthOf(
-matchKey  
-  // `tick` ""quote"" 'q'
-// `tick` ""quote"" 'q'
-
-) 
-repeat 
-char[42
-
-]
-packetx// packet A { u8 x, }
-`" ++ [233]%N ++ runes_of_ascii "`
+] matchKey
 
 , 
-trueish@calculatedFrom(""packet""
-)
 
-    `a\`, matchKey
-	int`" ++ [28040; 24687; 31867; 22411]%N ++ runes_of_ascii "`
-	,
-
-@tag( 
     // c
-  	0	)len
-
-    { 
-char[	65535]
-    Header ,	}  ,
-
-    @lengthOf(
-f32a )zchar[
-
-    10]trueish
-	`crlf
-line`
+repeat matchKey
+{ repeat i8
+    matchKey
 	,
-}
-")).
-Eval vm_compute in ("<<<M1417>>>" ++ check (runes_of_ascii "packet Header {
-    char[10] A `it's`,
-    @calculatedFrom(""" ++ [28040; 24687]%N ++ runes_of_ascii """)
-    calculatedFrom @lengthOf(zchar) `tab	here`,
-    u32 BodyLength,
-    @lengthOf(stringy)
-    //
-    @rightPad(' ')
-    @tag(0123456789)
-    body {
-        match i8i8 as Foo {
-            [7, ""CRC32""] : options1,
-            [
-                ""a\""b"", """ ++ [128512]%N ++ runes_of_ascii """, ""it's"", ""a	b"", ""// no comment"",
-                ""it's"", 7, ""abc""
-            ] : As,
-            1 : _x,
-            // " ++ [128512]%N ++ runes_of_ascii " emoji
-            //
-        },
-        repeat uint8x {
-            crc @calculatedFrom(""a\\""),
-        },
-        repeat i8 tag,// " ++ [128512]%N ++ runes_of_ascii " emoji
-    },
-}")).
-Eval vm_compute in ("<<<M327>>>" ++ check (runes_of_ascii "root packet asx
-    { tag body `u8 x,` , }
-packet string_ {
-    @lengthOf(
-len // a // b
-)repeat	zchar[ 42 ] u8x,zchar[ 0 ] asx
-    , } packet
-// " ++ [128512]%N ++ runes_of_ascii " emoji
-// " ++ [27880; 37322]%N ++ runes_of_ascii "
-int {repeat crc
-    { zchar float , match
-    i8i8 as rootA//x
-{ 255 : lengthOf , 1 :lengthOf
-,3
-    :
-roots , 3 : uint8x ,0
-    :As , ""`tick`"" :	repeatCount , }  , repeat
-/// triple
-//
-char[]
-falsey ,
-    u64 lengthOf ,} , @lengthOf( crc ) lengthOf i64_ , leftPad
-`crlf
-line`, }
-    root	packet zchar{ f32 _x @calculatedFrom( ""a\\"" ), }	MetaData chars // trailing space 
-{//
-}")).
-Eval vm_compute in ("<<<M1488>>>" ++ check (runes_of_ascii "MetaData body {
-    T calculatedFrom,
-    string f32a `line1
-    line2`,
-    leftPad BodyLength `tab	here`,
-}
+a1@calculatedFrom(	//
+		""\n"" )
+	`two words`, } 
+,  a1 {
+	char[]
+	a1
 
-options {
-}
+, char x_y_z
+	// @lengthOf(
 
-MetaData options1 {
-    char[3] MetaDataX `" ++ [28040; 24687; 31867; 22411]%N ++ runes_of_ascii "`,
-    BodyLength x `
-    `,
-    u16 tag `say ""hi""`,
-    u8 float,
-    float32 As `
-    `,
-    i8i8 Z9_ `
-    `,
-}
-
-packet u {
-    @tag(42)
-    options1 o `crlf
-    line`,
-    @calculatedFrom(""`tick`"")
-    repeat char[] a1,
-}
-
-options {
-    uint8x = true
-    A = 7;// packet A { u8 x, }
-    len = """ ++ [128512]%N ++ runes_of_ascii """
-}")).
-Eval vm_compute in ("<<<M1113>>>" ++ check (runes_of_ascii "// top
-packet // c0
-float // c1
-{ // c2
-@rightPad // c3
-( // c4
-) // c5
-rootA // c6
-@lengthOf( // c7
-trueish // c8
-) // c9
-, // c10
-stringy // c11
-@lengthOf( // c12
-matchKey // c13
-) // c14
-, // c15
-char[ // c16
-4294967296 // c17
-] // c18
-pack // c19
-@lengthOf( // c20
-uint8x // c21
-) // c22
-, // c23
-} // c24
-root // c25
-packet // c26
-trueish // c27
-{ // c28
-repeat // c29
-uint64 // c30
-u128 // c31
-`line1
-line2` // c32
-, // c33
-} // c34
-")).
-Eval vm_compute in ("<<<M1867>>>" ++ check (runes_of_ascii "options {
-    LittleEndian = false;
-    StringPrefixLenType = u8;
-    ArrayPrefixLenType = u64;
-    FixedStringPadFromLeft = false;
-    FixedStringPadChar = ' ';
-}
-
-packet Reject {
-    repeat char[4] seqNo,
-    string Px,
-}
-
-root packet Trade {
-    @rightPad('0')
-    char[2] msgKind,
-    repeat f64 price,
-    InAcct79 {
-        repeat Reject,
-        zchar[7] OrderId,
-    },
-    Reject,
-}")).
-Eval vm_compute in ("<<<M118>>>" ++ check (runes_of_ascii "packet As{@leftPad ( )
-    char[ 0	]
-Logon, char[	0
-]
-Z9_@calculatedFrom(	""abc""
-    // c
-    ) ,  @tag( 4294967296 )
-    i64 matchKey @calculatedFrom(
-    ""// no comment""//
-)`two words` ,i16 A
-, }// " ++ [27880; 37322]%N ++ runes_of_ascii "
-packet T { zchar[
-3 ] tag// packet A { u8 x, }
-@lengthOf(
-    chars) , } packet// " ++ [128512]%N ++ runes_of_ascii " emoji
-BodyLength  {calculatedFrom @lengthOf( body )
-`
-`	, } // a // b")).
-Eval vm_compute in ("<<<M100>>>" ++ check (runes_of_ascii "
-root packet
-a1
-    {
-tag Pad``
-, } options {
-}
-    root packet int	{
-    uint64 f32a , } packet
-MetaDataX {// c
-@leftPad( ' ' ) /// triple
-repeat uint16 Header	`{ , }`
-,
-// `tick` ""quote"" 'q'
-/// triple
-}
-options {
-Z9_= false
-    falsey //	t
-= ""x y"" ; rootA = false
-    // a // b
-    Foo	=true
-lengthOf
-    = float64 }")).
-Eval vm_compute in ("<<<M321>>>" ++ check (runes_of_ascii "
-options
-{ a1 = '\x00'
-As
-= ""{,}"" u8x
-=//x
-""a	b""
-    ; asx
-    = u64;
-o
-// @lengthOf(
-// c
-=0123456789 } packet Header
-{
-    //
-    @lengthOf(x // trailing space 
-)
-    // " ++ [27880; 37322]%N ++ runes_of_ascii "
-    repeat
-falsey { repeatCount
-    trueish
-`u8 x,` , } ,
-// `tick` ""quote"" 'q'
-// " ++ [128512]%N ++ runes_of_ascii " emoji
-zchar[
-65535 ] x
-    ,
-}")).
-Eval vm_compute in ("<<<M1250>>>" ++ check (runes_of_ascii "// top
-packet
-    // c0
-Inner
-    // c1
-{ // c2a
-  // c2b
-u8
-    // c3
-a // c4a
-  // c4b
-, }
-    // c6
-root // c7
-packet // c8
-P // c9a
-  // c9b
-{
-    // c10
-Inner // c11a
-  // c11b
-ref_obj
-    // c12
-, // c13a
-  // c13b
-u8 x ,
-    // c16
-} // c17a
-  // c17b
-")).
-Eval vm_compute in ("<<<M124>>>" ++ check (runes_of_ascii "MetaData Z9_
-{zchar[4294967296 ]
-    leftPad `u8 x,`,
-}
-MetaData body { trueish
-    len `// not a comment` , }root
-packet // @lengthOf(
-u8x{ char[ 10 ] x
-    @calculatedFrom(
-// a // b
-// packet A { u8 x, }
-""\" ++ [233]%N ++ runes_of_ascii """ ) , }
-")).
-Eval vm_compute in ("<<<M26>>>" ++ check (runes_of_ascii "root packet body { repeat // c
-i8i8
-`it's`
-,}
-packet chars
-{@rightPad
-    (  '\x00' )
-    // `tick` ""quote"" 'q'
-    leftPad {
-    char[ 10
-]
-    asx `" ++ [233]%N ++ runes_of_ascii "`, }
-    // trailing space 
-    ,
-}
-")).
-Eval vm_compute in ("<<<M1734>>>" ++ check (runes_of_ascii "  MetaData
-
-    leftPad
-{
-
-    chars
-
-MetaDataX ,
-    }
-
-packet
-repeatCount
-{
-    char[
-
-    255 ]
-uint8x `" ++ [233]%N ++ runes_of_ascii "`
-
-    ,
-    } MetaData pack  {As 
-
-// c
-		Foo , }
-
-")).
-Eval vm_compute in ("<<<M1581>>>" ++ check (runes_of_ascii "packet A {
-    match k as n {
-        [
-            1, ""bb"", 007, ""d"", 5,
-            ""f"", 7, ""h"", 9, ""j"",
-            11
-        ] : B,
-        2 : C,
-    },
-}")).
-Eval vm_compute in ("<<<M55>>>" ++ check (runes_of_ascii "MetaData x_y_z
-//x
-//x
-{ int32
-    o
 ,zchar[
-65535  ]Packet , i64_ o , i64 o`
-` , } options
-{ x =
-//x
-/// triple
-u8;
-// " ++ [27880; 37322]%N ++ runes_of_ascii "
-// a // b
-} // trailing space ")).
-Eval vm_compute in ("<<<M540>>>" ++ check (runes_of_ascii "packet uint8x
-{ match pack
-    as msg_type	{
-    0123456789 :	float
-}
-,
-} packet //	t
-a1
-    { } options " ++ [65279]%N ++ runes_of_ascii " {packetx
-    = '\x00'	; u128= ""a	b""  ; }
-")).
-Eval vm_compute in ("<<<M437>>>" ++ check (runes_of_ascii "packet uint8x
-{ match pack
-    as msg_type	{
-    0123456789 float	:
-}
-,
-} packet //	t
-a1
-    { } options {packetx
-    = '\x00'	; u128= ""a	b""  ; }
-")).
-Eval vm_compute in ("<<<M475>>>" ++ check (runes_of_ascii "packet uint8x
-{ match pack
-    as msg_type	{
-    0123456789 :	float
-}
-,
-} packet //	t
-a1
-    {  options {packetx
-    = '\x00'	; u128= ""a	b""  ; }
-")).
-Eval vm_compute in ("<<<M510>>>" ++ check (runes_of_ascii "packet uint8x
-{ match pack
-    as msg_type	{
-    0123456789 :	float
-}
-,
-} packet //	t
-a1
-    { } options {packetx
-    = '\x00'	; = ""a	b""  ; }
-")).
-Eval vm_compute in ("<<<M718>>>" ++ check (runes_of_ascii "// @lengthOf(
-packet i8i8 { u128 o , }
-options { MetaDataX = true;
-    BodyLength =""packet"" x_y_z= 007
-crc //x
-= ""abc"" ;
-    msg_type as
-i16 }")).
-Eval vm_compute in ("<<<M709>>>" ++ check (runes_of_ascii "// @lengthOf(
-packet i8i8 { u128 o , }
-options { MetaDataX = true;
-    BodyLength =""packet"" x_y_z= 007
-crc //x
-= ""abc"" 
-    msg_type =
-i16 }")).
-Eval vm_compute in ("<<<M1592>>>" ++ check (runes_of_ascii "packet A {
-    match k as n {
-        [
-            1, 22, 007, 4, 5,
-            66, 7, 8, 9, 10
-        ] : B,
-        2 : C,
-    },
-}")).
-Eval vm_compute in ("<<<M1813>>>" ++ check (runes_of_ascii "  packet B
-{ u8
-a,
+	65535
+]	// a // b
+  	len	`u8 x,`	, } ,	repeat MetaDataX
+	{ repeat  leftPad
 
-    }
-root
-	packet
-P  { u8
-	K, 
-u8 L
+    pack , 
+string i8i8`say ""hi""` ,
+}	// 50% %s
+
+, 
+      // " ++ [27880; 37322]%N ++ runes_of_ascii "
+// @lengthOf(
+
+@leftPad //x
+  ( '0'  ) @lengthOf(
+
+    BodyLength
+
+)
+
+    @rightPad (
+    ' ' 	 // 50% %s
+  )char[]  // " ++ [128512]%N ++ runes_of_ascii " emoji
+  charz , @lengthOf(
+i8i8 )
+
+@calculatedFrom(
+    ""CRC32"" 
+)
+@lengthOf(
+T
+	) metadata , // 50% %s
+} packet  x	{
+    @tag(
+0123456789  )match
+tag as
+Pad
+	{  [  //x
+
+  ""\" ++ [233]%N ++ runes_of_ascii """ 
+,
+""a	b"" ,  // " ++ [27880; 37322]%N ++ runes_of_ascii "
+	""a\\"" ,""{,}"",	007
+
+,	007
+,
+
+0123456789
+] // c
+  	:  options1
+,  }
+,
+@leftPad	(
+	)
 
     @lengthOf(
-Body
-
+	charz
+	)
+    @tag(
+42) 
+o{	i32 msg_type
+@lengthOf(	// `tick` ""quote"" 'q'
+  A
     )
+``	,
+zchar[
+	1
+    ]	charz
+	    //	t
+	//x
+  ,
+
+    i8 	 //x
+	packetx`tab	here`
+,repeat
+
+crc
+
+    rootA ,  },//	t
+    repeat	uint8x asx
+
+    , repeat  char[]
+Foo
+
 ,
-	match  K	as
 
-Body	{1 : B
-	, }, }
-")).
-Eval vm_compute in ("<<<M1554>>>" ++ check (runes_of_ascii "packet B {
-    u8 a,
-}
+repeat zchar[ 0123456789	] u128
+, 
+match	uint8x 
+as
 
-root packet P {
-    u8 K,
-    match K as Body {
-        1 : B,
-    },
-    u16 L @lengthOf(Body),
-}")).
-Eval vm_compute in ("<<<M1154>>>" ++ check (runes_of_ascii "MetaData leftPad { chars MetaDataX ,
-// c
-} packet repeatCount { char[ 255 ] uint8x `" ++ [233]%N ++ runes_of_ascii "` , } MetaData pack { As Foo , }")).
-Eval vm_compute in ("<<<M1186>>>" ++ check (runes_of_ascii "MetaData leftPad { chars MetaDataX , } packet repeatCount { char[ 255 ] uint8x `" ++ [233]%N ++ runes_of_ascii "` , } MetaData pack { As Foo
-// c
-, }")).
-Eval vm_compute in ("<<<M290>>>" ++ check (runes_of_ascii "options {
-    /// triple
-    asx // " ++ [27880; 37322]%N ++ runes_of_ascii "
-= 3 } MetaData T
-{  f32/// triple
-Pad `u8 x,` , } // `tick` ""quote"" 'q'")).
-Eval vm_compute in ("<<<M1278>>>" ++ check (runes_of_ascii "  options{ 
-LittleEndian =	true
-	; } root	packet
-	P {	u16  a ,u32 
-Sum
-@calculatedFrom(
-""CRC32""  )	, }
+_x  {""packet""
+    : f32a	,
+    255 
+:	roots
 
-")).
-Eval vm_compute in ("<<<M671>>>" ++ check (runes_of_ascii "// @lengthOf(
-packet i8i8 { u128 o , }
-options { MetaDataX = true;
-    BodyLength =""packet"" x_y_z= 0")).
-Eval vm_compute in ("<<<M883>>>" ++ check (runes_of_ascii "packet A {
-  match k as n {
-    [1, ""bb"", 007, ""d"", 5, ""f"", 7, ""h"", 9, ""j""] : B
-    2 : C
-  },
-}")).
-Eval vm_compute in ("<<<M578>>>" ++ check (runes_of_ascii "
-packet
-    asx {match u128 as as lengthOf
-{
-//	t
-// `tick` ""quote"" 'q'
-255 : x ,
-    } ,	}")).
-Eval vm_compute in ("<<<M1959>>>" ++ check (runes_of_ascii "
-packet	calculatedFrom {
-    repeat 	 // packet A { u8 x, }
-	string
+,[
 
-Foo  `{ , }` ,
-    } ")).
-Eval vm_compute in ("<<<M859>>>" ++ check (runes_of_ascii "packet A {
-  match k as n {
-    [""a"", 22, ""c c"", 4, ""e"", 66, ""g"", 8] : B
-    2 : C
-  },
-}")).
-Eval vm_compute in ("<<<M557>>>" ++ check (runes_of_ascii "
-packet
-     {match u128 as lengthOf
-{
-//	t
-// `tick` ""quote"" 'q'
-255 : x ,
-    } ,	}")).
-Eval vm_compute in ("<<<M844>>>" ++ check (runes_of_ascii "packet A {
-  match k as n {
-    [1, ""bb"", 007, ""d"", 5, ""f"", 7] : B
-    2 : C
-  },
-}")).
-Eval vm_compute in ("<<<M839>>>" ++ check (runes_of_ascii "packet A {
-  match k as n {
-    [1, 22, 007, 4, 5, 66, 7] : B,
-    2 : C
-  },
-}")).
-Eval vm_compute in ("<<<M606>>>" ++ check (runes_of_ascii "
-packet
-    asx {match u128 as lengthOf
-{
-//	t
-// `tick` ""quote"" 'q'
-255 :")).
-Eval vm_compute in ("<<<M790>>>" ++ check (runes_of_ascii "packet A {
-  match k as n {
-    [""a"", ""bb"", ""c c""] : B
-    2 : C
-  },
-}")).
-Eval vm_compute in ("<<<M942>>>" ++ check (runes_of_ascii "packet A {
-    B b `a
+""" ++ [28040; 24687]%N ++ runes_of_ascii """,	0123456789	,""CRC32""
 
-b`,
-    B `a
+    ,  0
+	, 
+1 ,
+255  ] 
+:
+    // @lengthOf(
+  Packet
+    ,
+	""`tick`"" // packet A { u8 x, }
 
-b`,
-    repeat B bs `a
+  :
+    metadata  ,
+    ""x y""
+	:
+	rootA  }
+,	_x@lengthOf( crc)	,
+	@lengthOf(Logon
+	)repeat  Packet options1 , match
 
-b`,
-}")).
-Eval vm_compute in ("<<<M88>>>" ++ check (runes_of_ascii "options// @lengthOf(
-{a1 = 65535
-// `tick` ""quote"" 'q'
-// c
-}")).
-Eval vm_compute in ("<<<M799>>>" ++ check (runes_of_ascii "packet A { Inner { match k as n { [1,22,007] : B, }, }, }")).
-Eval vm_compute in ("<<<M1811>>>" ++ check (runes_of_ascii "
-MetaData
-M
-{
+trueish
 
-} // c
-    	packet
+as
 
-A
+    lengthOf {
+	65535  :
+float
+, } , @tag( 65535  ) lengthOf
 
-    {
-}
-")).
-Eval vm_compute in ("<<<M1085>>>" ++ check (runes_of_ascii "packet A { B { // a
- u8 x, // b
- } // c
- , // d
- }")).
-Eval vm_compute in ("<<<M429>>>" ++ check (runes_of_ascii "packet uint8x
-{ match pack
-    as msg_type")).
-Eval vm_compute in ("<<<M1903>>>" ++ check (runes_of_ascii "root packet A {
-    u8 x `
-        `,
-}")).
-Eval vm_compute in ("<<<M1774>>>" ++ check (runes_of_ascii "
+@lengthOf( 	 // `tick` ""quote"" 'q'
+a1
+	)
 
-  options	{
-	a
-=
-1 	 // a
-	;
+`tab	here` ,
 } ")).
-Eval vm_compute in ("<<<M1961>>>" ++ check (runes_of_ascii "packet A {
-    repeat B b `d`,
-}")).
-Eval vm_compute in ("<<<M1467>>>" ++ check (runes_of_ascii "packet
+Eval vm_compute in ("<<<M1634>>>" ++ check (runes_of_ascii "
 
-    x  {
-	// c
-  } ")).
-Eval vm_compute in ("<<<M217>>>" ++ check (runes_of_ascii "root	packet falsey
+  root packet  o	{	repeat
+    zchar[ 65535 ] o ,	repeat char[ // trailing space 
+		0	]
+	zchar, int64
+x
+	`
+`
+	    //
+		//
+,// a // b
+string
+msg_type // a // b
+	,
+        // c
+@leftPad( '\x00'
+	) repeat
+calculatedFrom 
+    // trailing space 
+  A
+
+    ,
+
+string	Header @lengthOf(  a1
+)
+`crlf
+line`, repeat  crc
+	{f32  Pad
+    ,  match
+    charz 
+	/// triple
+	  as Logon  
+      //
+
+  { [	""1"" 
+,	// c
+	""CRC32"" , 
+""" ++ [28040; 24687]%N ++ runes_of_ascii """,	00
+,
+""1""
+    ,""{,}""
+
+    ,
+
+""" ++ [28040; 24687]%N ++ runes_of_ascii """, ""{,}"" ] 
+  // packet A { u8 x, }
+	  //x
+    :  uint8x,
+	[  3
+,
+""CRC32""
+
+] : 
+        // a // b
+lengthOf,
+
+    42
+:u128	,	} 
+,  Z9_ ,float64 u128
+
+    `{ , }`
+,}	,
+
+u16
+
+calculatedFrom , 
+zchar[ 3
+]
+    calculatedFrom	//	t
+
+,
+@tag(
+	10
+	) match charz
+    as
+_x{
+    ""abc""
+
+/// triple
+	:
+	    // `tick` ""quote"" 'q'
+    //	t
+
+zchar 
+,
+
+    ""packet""
+	:
+roots , 255	//x
+
+	: 
+options1
+
+, ""1""
+	: uint8x // packet A { u8 x, }
+  ,  
+      // 50% %s
+} 
+
+    // trailing space 
+,}
+    MetaData
+len
+{  uint8x len ,} 
+packet
+
+    options1
 {
+
+    @tag(10
+
+) i8
+roots @lengthOf(
+    lengthOf), char[  1
+
+]
+
+u128  `" ++ [28040; 24687; 31867; 22411]%N ++ runes_of_ascii "`// @lengthOf(
+    ,
+	a1 
+tag
+
+`say ""hi""` ,string asx
+    `// not a comment` 
+,}
+
+    packet calculatedFrom{  int64 
+a1	//x
+  ,
+// a // b
+    //x
 }
 ")).
-Eval vm_compute in ("<<<M1738>>>" ++ check (runes_of_ascii "root packet falsey {
-}")).
-Eval vm_compute in ("<<<M1041>>>" ++ check (runes_of_ascii "packet A {
+Eval vm_compute in ("<<<M1743>>>" ++ check (runes_of_ascii "packet rootA {
+    @lengthOf(a1)
+    f32a @lengthOf(Header) `// not a comment`,
+    match T as i64_ {
+        42 : string_,
+    },
+    match stringy as Header {
+        [65535] : msg_type,
+        ""it's"" : u,
+        ""\n"" : lengthOf,
+        // `tick` ""quote"" 'q'
+    },
+    @tag(42)
+    repeat zchar f32a `u8 x,`,
+    @tag(255)
+    //
+    repeat Pad {
+        x T,
+    },
+    @calculatedFrom(""{,}"")
+    repeat leftPad {
+        //	t
+        u64 u8x `" ++ [28040; 24687; 31867; 22411]%N ++ runes_of_ascii "`,
+        len @calculatedFrom(""\" ++ [233]%N ++ runes_of_ascii """),
+        zchar[4294967296] falsey,
+    },
+    @tag(7)
+    match i8i8 as pack {
+        3 : string_,
+        0123456789 : packetx,
+        [42] : tag,
+        ""\n"" : a1,
+        [0123456789, 1] : x_y_z,
+        0 : float,
+    },
+    repeat u128 As,
 }
-// c 	")).
-Eval vm_compute in ("<<<M1007>>>" ++ check (runes_of_ascii "// c" ++ [8202]%N ++ runes_of_ascii "
+
+options {
+    packetx = """ ++ [128512]%N ++ runes_of_ascii """;
+    msg_type = ' ';
+    Packet = 10;
+}
+
+// a // b
+packet Pad {
+    // " ++ [27880; 37322]%N ++ runes_of_ascii "
+    char[] pack,
+    repeat float32 falsey,
+    char[42] Z9_,
+    Logon @lengthOf(i8i8) `
+    `,
+    tag {
+        x,
+        i32 float @lengthOf(crc),
+    },
+}")).
+Eval vm_compute in ("<<<M1359>>>" ++ check (runes_of_ascii "options {
+    LittleEndian = false;
+    StringPrefixLenType = u16;
+    ArrayPrefixLenType = u8;
+    FixedStringPadChar = '0';
+}
+packet Leg {
+    zchar[1] Ref,
+    repeat string count,
+    repeat InMsgkind21 {
+        repeat char[2] price,
+        uint64 sym,
+        zchar[9] msgKind,
+    },
+    zchar[5] Note,
+}
+packet Ack {
+    u16 seqNo,
+    repeat char[1] Acct,
+    @leftPad(' ') char[4] msgKind,
+    repeat InTag747 {
+        Leg,
+    },
+    repeat string Tail,
+    Leg,
+}
+packet Trade {
+    u64 clOrdID,
+    repeat InLastpx24 {
+        char[10] Note,
+        char[3] Qty,
+        repeat char[2] Side2,
+        Ack,
+        repeat InX47 {
+            Ack,
+        },
+    },
+}
+root packet Heartbeat {
+    repeat u64 Acct,
+    string lastPx,
+    u8 Side2,
+    match Side2 as Body {
+        2 : Trade,
+        157 : Ack,
+        46 : Leg,
+    },
+    u32 sym @calculatedFrom(""CR\
+C32""),
+}
+")).
+Eval vm_compute in ("<<<M1896>>>" ++ check (runes_of_ascii "
+root
+	packet  crc {
+	MetaDataX 
+@calculatedFrom( 
+    // " ++ [128512]%N ++ runes_of_ascii " emoji
+    	//
+      ""// no comment""
+
+    ) , 	 // " ++ [27880; 37322]%N ++ runes_of_ascii "
+@calculatedFrom(  """"
+
+    ) 
+
+    // trailing space 
+
+  len metadata  // @lengthOf(
+    	, @tag( 
+0	) 
+	    // `tick` ""quote"" 'q'
+    // c
+char As
+
+`doc`  ,	@lengthOf(	// `tick` ""quote"" 'q'
+
+  crc 
+    // c
+    //	t
+  )repeat leftPad 
+	// a // b
+	  {
+repeat
+    chars
+	u8x 
+`// not a comment`,uint8x
+{
+    repeat
+
+char[ 10	] 
+crc,
+options1,  }
+    , 
+
+    // " ++ [128512]%N ++ runes_of_ascii " emoji
+
+  // trailing space 
+match 
+leftPad
+
+as Packet{ ""// no comment"" :  chars
+,
+[ 42,
+    0
+	]:a1 
+
+// c
+	  ""\n""
+:	len  // `tick` ""quote"" 'q'
+      , 3
+:// " ++ [128512]%N ++ runes_of_ascii " emoji
+
+Header
+}
+    ,
+char[]
+options1 @lengthOf(  //	t
+f32a
+
+) `
+`
+	,
+
+}	, // a // b
+
+}
+
+")).
+Eval vm_compute in ("<<<M1950>>>" ++ check (runes_of_ascii "packet Pad {
+    match string_ as asx {
+        7 : len,
+        3 : lengthOf,
+        [1] : charz,
+        ""{,}"" : string_,
+        ""\n"" : tag,
+    },
+    @calculatedFrom(""a	b"")
+    // packet A { u8 x, }
+    // " ++ [128512]%N ++ runes_of_ascii " emoji
+    i16 calculatedFrom `it's`,
+    @tag(10)
+    repeat o {
+        repeat char[] o `say ""hi""`,
+        int @calculatedFrom(""a\\""),
+        Foo {
+            repeat T {
+                f32 A @lengthOf(charz),
+                Logon @lengthOf(pack) `a\`,
+            },
+        },
+        // " ++ [128512]%N ++ runes_of_ascii " emoji
+        //
+    },
+}
+
+options {
+    i64_ = uint32;
+    falsey = ""a	b"";
+    BodyLength = '0';
+    lengthOf = """ ++ [28040; 24687]%N ++ runes_of_ascii """;
+    repeatCount = u64
+}")).
+Eval vm_compute in ("<<<M348>>>" ++ check (runes_of_ascii "packet //x
+rootA
+    {
+    @calculatedFrom( ""{,}""	)
+    @calculatedFrom( ""x y"" ) char[ 0
+    // packet A { u8 x, }
+    ] lengthOf,  @tag( 3 )
+    //	t
+    trueish,charz`" ++ [28040; 24687; 31867; 22411]%N ++ runes_of_ascii "` , match u8x as roots { ""x y"":
+    //	t
+    i64_ // " ++ [128512]%N ++ runes_of_ascii " emoji
+, ""a\\"":
+    As , ""CRC32"" :
+    calculatedFrom
+    //
+    , ""1""
+    :msg_type
+    ,
+[ """ ++ [233]%N ++ runes_of_ascii "t" ++ [233]%N ++ runes_of_ascii """  , 007 ]
+: Foo ,} , u32 lengthOf ,@lengthOf(
+options1 ) x_y_z Logon `100% of %d`, @tag(
+42
+) // packet A { u8 x, }
+A	{ f32a `u8 x,`
+// " ++ [128512]%N ++ runes_of_ascii " emoji
+// packet A { u8 x, }
+, }
+,//x
+@rightPad( ' ' ) char[// c
+65535]f32a `tab	here` ,
+// c
+/// triple
+}
+")).
+Eval vm_compute in ("<<<M342>>>" ++ check (runes_of_ascii "packet x
+{ @lengthOf( options1
+//
+//x
+)
+uint8
+    MetaDataX
+`// not a comment`
+    , packetx ,  @tag(
+42  )
+_x
+@calculatedFrom(
+// " ++ [27880; 37322]%N ++ runes_of_ascii "
+//
+""abc"" ) `" ++ [28040; 24687; 31867; 22411]%N ++ runes_of_ascii "`  , @lengthOf( stringy)string trueish
+`
+` , o	stringy`{ , }` , zchar[ 007 ] Logon , // 50% %s
+@rightPad
+(	'\x00'
+)repeat// 50% %s
+lengthOf{char[
+    65535 ]u128 ,int8 A , body { match // trailing space 
+x
+as
+options1 {
+7:
+    // trailing space 
+    roots // " ++ [128512]%N ++ runes_of_ascii " emoji
+""CRC32""
+:// packet A { u8 x, }
+i8i8  , }
+,
+} , } , }
+    //	t
+    packet As {
+} // @lengthOf(")).
+Eval vm_compute in ("<<<M1631>>>" ++ check (runes_of_ascii "MetaData u128 {
+}
+
+MetaData a1 {
+}// " ++ [128512]%N ++ runes_of_ascii " emoji
+
+root packet o {
+    char[10] stringy @lengthOf(Z9_),
+    match x_y_z as stringy {
+        3 : float,
+    },
+    @leftPad(' ')
+    u128 {
+        repeat i32 msg_type `it's`,
+        x,
+        repeat char[65535] T,
+        match A as i8i8 {
+            """ ++ [128512]%N ++ runes_of_ascii """ : Logon,
+        },
+    },
+}
+
+MetaData x_y_z {
+    // @lengthOf(
+    options1 a1,
+    u8x x_y_z `tab	here`,
+    char MetaDataX,// " ++ [27880; 37322]%N ++ runes_of_ascii "
+    zchar[65535] chars,
+    char[] crc `doc`,
+}")).
+Eval vm_compute in ("<<<M214>>>" ++ check (runes_of_ascii "
+options {string_ = float64 ; } root packet BodyLength
+    { Header , i16 Foo, lengthOf@calculatedFrom(
+""`tick`""	) //
+`// not a comment`
+    , @lengthOf( charz )// " ++ [128512]%N ++ runes_of_ascii " emoji
+repeat u32 a1 ,
+    calculatedFrom {
+    f64 chars @lengthOf( a1
+) `u8 x,`
+    , }  , repeat
+    i8
+    _x `
+`
+,} options
+{ }
+MetaData	i8i8
+    { // trailing space 
+MetaDataX A
+,	string
+asx,Packet Pad  `say ""hi""` , u128 stringy ,	i64 _x // " ++ [27880; 37322]%N ++ runes_of_ascii "
+,
+} packet x
+{	}")).
+Eval vm_compute in ("<<<M1793>>>" ++ check (runes_of_ascii "packet	o
+    {
+
+@rightPad(	'\x00' ) @calculatedFrom( ""a\""b"" 
+)	@rightPad(
+'0') char[ // trailing space 
+    	255
+
+]	zchar  @calculatedFrom(
+
+    ""\" ++ [233]%N ++ runes_of_ascii """ ) ,
+
+    char[ 
+      // 50% %s
+    	//	t
+		10 	 /// triple
+    	]
+	_x`" ++ [28040; 24687; 31867; 22411]%N ++ runes_of_ascii "`  , 
+} options 
+{ }
+
+    options {Pad ='0' 
+; 
+}packet i64_ 
+{
+
+    repeat string	// " ++ [128512]%N ++ runes_of_ascii " emoji
+	zchar
+, 
+@calculatedFrom(
+    """" ) @lengthOf(	Packet )  f32a 
+// c
+  // " ++ [27880; 37322]%N ++ runes_of_ascii "
+,	}
+")).
+Eval vm_compute in ("<<<M152>>>" ++ check (runes_of_ascii "packet uint8x
+{ }root
+    packet repeatCount{ @rightPad ( '\x00') // 50% %s
+i16
+    roots ,@rightPad() repeat// 50% %s
+trueish{tag	@calculatedFrom( ""1"" )
+`line1
+line2` ,
+    string crc `100% of %d` , repeat	char[]trueish //
+`// not a comment`,
+repeat
+BodyLength u `{ , }`
+, } ,
+char tag
+,
+@lengthOf(
+body )
+@tag( 007 ) @calculatedFrom( """ ++ [128512]%N ++ runes_of_ascii """ )
+    char[	007	] uint8x , }
+")).
+Eval vm_compute in ("<<<M1175>>>" ++ check (runes_of_ascii "// top
+options // c0
+{ // c1
+f32a // c2
+= // c3
+0 // c4
+} // c5
+packet // c6
+trueish // c7
+{ // c8
+} // c9
+MetaData // c10
+_x // c11
+{ // c12
+char[ // c13
+0123456789 // c14
+] // c15
+zchar // c16
+, // c17
+string // c18
+crc // c19
+, // c20
+char[ // c21
+1 // c22
+] // c23
+options1 // c24
+, // c25
+uint8 // c26
+repeatCount // c27
+, // c28
+} // c29
+")).
+Eval vm_compute in ("<<<M1795>>>" ++ check (runes_of_ascii "packet len {
+    // " ++ [27880; 37322]%N ++ runes_of_ascii "
+    @leftPad('0')
+    // trailing space 
+    Logon @lengthOf(_x) `100% of %d`,
+    char rootA,
+    @calculatedFrom(""" ++ [28040; 24687]%N ++ runes_of_ascii """)
+    @leftPad(' ')
+    // `tick` ""quote"" 'q'
+    i8 crc,
+    msg_type @calculatedFrom("""") `
+    `,// `tick` ""quote"" 'q'
+}
+
+options {
+}
+
+options {
+    u8x = true
+}")).
+Eval vm_compute in ("<<<M1868>>>" ++ check (runes_of_ascii "// top
+packet float {
+    // c2
+    @rightPad()
+    // c5
+    rootA @lengthOf(trueish),// c10
+    stringy @lengthOf(matchKey),// c15
+    char[4294967296] pack @lengthOf(uint8x),// c23
+}// c24
+
+root packet trueish {
+    // c28
+    repeat uint64 u128 `say ""hi""`,// c33
+}// c34")).
+Eval vm_compute in ("<<<M502>>>" ++ check (runes_of_ascii "packet
+    asx { @calculatedFrom(
+""""  ) @tag( 255 )repeat
+// packet A { u8 x, }
+// trailing space 
+int16 u8x
+,
+@tag(
+    //
+    007 )
+    @tag( 0
+    /// triple
+    ) @tag( 1) u
+    @lengthOf( @lengthOf( T ),
+// `tick` ""quote"" 'q'
+//x
+} // " ++ [128512]%N ++ runes_of_ascii " emoji")).
+Eval vm_compute in ("<<<M407>>>" ++ check (runes_of_ascii "packet
+    asx { @calculatedFrom(
+"""" """"  ) @tag( 255 )repeat
+// packet A { u8 x, }
+// trailing space 
+int16 u8x
+,
+@tag(
+    //
+    007 )
+    @tag( 0
+    /// triple
+    ) @tag( 1) u
+    @lengthOf( T ),
+// `tick` ""quote"" 'q'
+//x
+} // " ++ [128512]%N ++ runes_of_ascii " emoji")).
+Eval vm_compute in ("<<<M540>>>" ++ check (runes_of_ascii "packet
+    asx { @calculatedFrom(
+""""  ) @tag( 255 )repeat
+// packet A { u8 x, }
+// trailing space 
+int16 u8x
+,
+@tag(
+    //
+    007 )
+    @tag( 0
+    /// triple
+    ) @tag( 1) u
+    @lengthOf( T )/,
+// `tick` ""quote"" 'q'
+//x
+} // " ++ [128512]%N ++ runes_of_ascii " emoji")).
+Eval vm_compute in ("<<<M508>>>" ++ check (runes_of_ascii "packet
+    asx { @calculatedFrom(
+""""  ) @tag( 255 )repeat
+// packet A { u8 x, }
+// trailing space 
+int16 u8x
+,
+@tag(
+    //
+    007 )
+    @tag( 0
+    /// triple
+    ) @tag( 1) u
+    @lengthOf( ) T,
+// `tick` ""quote"" 'q'
+//x
+} // " ++ [128512]%N ++ runes_of_ascii " emoji")).
+Eval vm_compute in ("<<<M416>>>" ++ check (runes_of_ascii "packet
+    asx { @calculatedFrom(
+""""  )  255 )repeat
+// packet A { u8 x, }
+// trailing space 
+int16 u8x
+,
+@tag(
+    //
+    007 )
+    @tag( 0
+    /// triple
+    ) @tag( 1) u
+    @lengthOf( T ),
+// `tick` ""quote"" 'q'
+//x
+} // " ++ [128512]%N ++ runes_of_ascii " emoji")).
+Eval vm_compute in ("<<<M1429>>>" ++ check (runes_of_ascii "  options  {}
+
+packet
+u128 	 // 50% %s
+    	{ @tag( 
+    // `tick` ""quote"" 'q'
+  // " ++ [27880; 37322]%N ++ runes_of_ascii "
+	  255)
+
+    @tag( // `tick` ""quote"" 'q'
+    	0)  Packet	, }packet
+u8x	{ o,}packet
+As{
+
+repeat
+msg_type
+
+    Header	,
+    }
+
+")).
+Eval vm_compute in ("<<<M510>>>" ++ check (runes_of_ascii "packet
+    asx { @calculatedFrom(
+""""  ) @tag( 255 )repeat
+// packet A { u8 x, }
+// trailing space 
+int16 u8x
+,
+@tag(
+    //
+    007 )
+    @tag( 0
+    /// triple
+    ) @tag( 1) u
+    @lengthOf(")).
+Eval vm_compute in ("<<<M500>>>" ++ check (runes_of_ascii "packet
+    asx { @calculatedFrom(
+""""  ) @tag( 255 )repeat
+// packet A { u8 x, }
+// trailing space 
+int16 u8x
+,
+@tag(
+    //
+    007 )
+    @tag( 0
+    /// triple
+    ) @tag( 1)")).
+Eval vm_compute in ("<<<M582>>>" ++ check (runes_of_ascii "MetaData u
+    { } MetaData o
+{ float float uint8x
+`100% of %d` ,repeatCount u8x, string_ leftPad
+, i32
+    Foo , int64 x `two words` , calculatedFrom
+stringy `a\` ,
+}
+")).
+Eval vm_compute in ("<<<M612>>>" ++ check (runes_of_ascii "MetaData u
+    { } MetaData o
+{ float uint8x
+`100% of %d` ,repeatCount u8x, , string_ leftPad
+, i32
+    Foo , int64 x `two words` , calculatedFrom
+stringy `a\` ,
+}
+")).
+Eval vm_compute in ("<<<M558>>>" ++ check (runes_of_ascii "MetaData u
+    } { MetaData o
+{ float uint8x
+`100% of %d` ,repeatCount u8x, string_ leftPad
+, i32
+    Foo , int64 x `two words` , calculatedFrom
+stringy `a\` ,
+}
+")).
+Eval vm_compute in ("<<<M551>>>" ++ check (runes_of_ascii "MetaData 
+    { } MetaData o
+{ float uint8x
+`100% of %d` ,repeatCount u8x, string_ leftPad
+, i32
+    Foo , int64 x `two words` , calculatedFrom
+stringy `a\` ,
+}
+")).
+Eval vm_compute in ("<<<M709>>>" ++ check (runes_of_ascii "packet
+crc
+{repeat  Foo A   ,	@lengthOf( uint8x ) string
+matchKey @lengthOf( stringy ) `a\`
+,
+    // c
+    }
+MetaData chars{
+leftPad
+    //	t
+    crc
+`" ++ [233]%N ++ runes_of_ascii "`
+,}")).
+Eval vm_compute in ("<<<M656>>>" ++ check (runes_of_ascii "MetaData u
+    { } MetaData o
+{ float uint8x
+`100% of %d` ,repeatCount u8x, string_ leftPad
+, i32
+    Foo , int64 x  , calculatedFrom
+stringy `a\` ,
+}
+")).
+Eval vm_compute in ("<<<M1255>>>" ++ check (runes_of_ascii "// top
+root
+    // c0
+packet P // c2
+{ // c3
+repeat // c4a
+  // c4b
+char
+    // c5
+cs ,
+    // c7
+u8 // c8
+x // c9
+, // c10
+} // c11a
+  // c11b
+")).
+Eval vm_compute in ("<<<M965>>>" ++ check (runes_of_ascii "packet A {
+    u16 len @lengthOf(body) `100% of %s %d %v`,
+    u32 crc @calculatedFrom(""CRC32"") `100% of %s %d %v`,
+    string body,
+}")).
+Eval vm_compute in ("<<<M1415>>>" ++ check (runes_of_ascii "packet
+    _x 
+{	@lengthOf(
+    packetx)
+_x@lengthOf(  // c
+  f32a
+
+)
+
+    , 
+float64 Header  @calculatedFrom( ""it's"")
+, }
+
+")).
+Eval vm_compute in ("<<<M660>>>" ++ check (runes_of_ascii "MetaData u
+    { } MetaData o
+{ float uint8x
+`100% of %d` ,repeatCount u8x, string_ leftPad
+, i32
+    Foo , int64 x")).
+Eval vm_compute in ("<<<M1213>>>" ++ check (runes_of_ascii "options { } options { MetaDataX // c
+= char ; } MetaData Pad { i8 metadata , string stringy , int8 As `{ , }` , }")).
+Eval vm_compute in ("<<<M1245>>>" ++ check (runes_of_ascii "options { } options { MetaDataX = char ; } MetaData Pad { i8 metadata , string stringy , int8 As `{ , }` // c
+, }")).
+Eval vm_compute in ("<<<M909>>>" ++ check (runes_of_ascii "packet A {
+  match k as n {
+    [""a"", 22, ""c c"", 4, ""e"", 66, ""g"", 8, ""i"", 10, ""k"", 12] : B
+    2 : C
+  },
+}")).
+Eval vm_compute in ("<<<M911>>>" ++ check (runes_of_ascii "packet A {
+  match k as n {
+    [1, 22, ""c c"", 4, 5, ""f"", 7, 8, ""i"", 10, 11, ""l""] : B
+    2 : C
+  },
+}")).
+Eval vm_compute in ("<<<M852>>>" ++ check (runes_of_ascii "packet A {
+  match k as n {
+    [""a"", ""bb"", ""c c"", ""d"", ""e"", ""f"", ""g"", ""h""] : B,
+    2 : C
+  },
+}")).
+Eval vm_compute in ("<<<M526>>>" ++ check (runes_of_ascii "packet
+    asx { @calculatedFrom(
+""""  ) @tag( 255 )repeat
+// packet A { u8 x, }
+// trailing ")).
+Eval vm_compute in ("<<<M1561>>>" ++ check (runes_of_ascii "  packet	A {
+
+    match
+k
+
+    as n  { 
+[ ""a"" ,22 , ""c c""
+]
+:
+
+B ,
+    2 :
+
+C} ,
+
+} ")).
+Eval vm_compute in ("<<<M386>>>" ++ check (runes_of_ascii "root packet SimpleMessage {
+	uint16 MsgType `" ++ [28040; 24687; 31867; 22411]%N ++ runes_of_ascii "`,
+	string JsonBody `Json" ++ [23383; 31526; 20018; 28040; 24687; 20307]%N ++ runes_of_ascii "`,
+}")).
+Eval vm_compute in ("<<<M846>>>" ++ check (runes_of_ascii "packet A {
+  match k as n {
+    [1, 22, ""c c"", 4, 5, ""f"", 7] : B
+    2 : C
+  },
+}")).
+Eval vm_compute in ("<<<M801>>>" ++ check (runes_of_ascii "packet A {
+  match k as n {
+    [""a"", ""bb"", ""c c"", ""d""] : B
+    2 : C
+  },
+}")).
+Eval vm_compute in ("<<<M265>>>" ++ check (runes_of_ascii "// c
+packet options1
+{options1
+x
+, }
+    options
+{
+Logon = float32  } 	 ")).
+Eval vm_compute in ("<<<M1303>>>" ++ check (runes_of_ascii "
+root	packet
+
+P	{u8
+	s_u8
+    ,repeat
+    u8
+	r_u8 
+, u16  b_len
+,}
+
+")).
+Eval vm_compute in ("<<<M1253>>>" ++ check (runes_of_ascii "
+
+  root
+
+    packet	P 
+{ char
+
+    c  ,
+
+u8 x
+
+    ,
+}
+
+")).
+Eval vm_compute in ("<<<M810>>>" ++ check (runes_of_ascii "packet A { Inner { match k as n { [1,22,007,4] : B, }, }, }")).
+Eval vm_compute in ("<<<M1089>>>" ++ check (runes_of_ascii "packet A { match k as n { 1 : B // a // b 2 : C }, }")).
+Eval vm_compute in ("<<<M243>>>" ++ check (runes_of_ascii "// `tick` ""quote"" 'q'
+options { f32a  = uint16}")).
+Eval vm_compute in ("<<<M301>>>" ++ check (runes_of_ascii "MetaData matchKey{ int64
+    Packet ,} 	 ")).
+Eval vm_compute in ("<<<M415>>>" ++ check (runes_of_ascii "packet
+    asx { @calculatedFrom(
+""""")).
+Eval vm_compute in ("<<<M1644>>>" ++ check (runes_of_ascii "
+// c" ++ [8232]%N ++ runes_of_ascii "
+  packet A
+    {
+
+    }
+
+")).
+Eval vm_compute in ("<<<M49>>>" ++ check (runes_of_ascii "root packet i8i8
+{ } /// triple")).
+Eval vm_compute in ("<<<M1017>>>" ++ check (runes_of_ascii "packet A {
+ u8 x `d" ++ [5760]%N ++ runes_of_ascii "`, // c" ++ [5760]%N ++ runes_of_ascii "
+}")).
+Eval vm_compute in ("<<<M575>>>" ++ check (runes_of_ascii "MetaData u
+    { } MetaData")).
+Eval vm_compute in ("<<<M289>>>" ++ check (runes_of_ascii "// `tick` ""quote"" 'q'
+
+")).
+Eval vm_compute in ("<<<M1129>>>" ++ check (runes_of_ascii "MetaData tag {
+// c
+}")).
+Eval vm_compute in ("<<<M1036>>>" ++ check (runes_of_ascii "// c" ++ [8233]%N ++ runes_of_ascii "
 packet A {
 }")).
-Eval vm_compute in ("<<<M974>>>" ++ check (runes_of_ascii "packet A {
-}// c ")).
-Eval vm_compute in ("<<<M1750>>>" ++ check (runes_of_ascii "
-// @lengthOf(
+Eval vm_compute in ("<<<M1023>>>" ++ check (runes_of_ascii "packet A {
+}// c" ++ [8202]%N)).
+Eval vm_compute in ("<<<M123>>>" ++ check (runes_of_ascii "
+packet _x {}
 ")).
-Eval vm_compute in ("<<<M1765>>>" ++ check (runes_of_ascii "
-
-  // c")).
-Eval vm_compute in ("<<<M765>>>" ++ check (runes_of_ascii "/" ++ [65533; 65533; 65533]%N)).
+Eval vm_compute in ("<<<M999>>>" ++ check (runes_of_ascii "// c" ++ [12288]%N)).
+Eval vm_compute in ("<<<M732>>>" ++ check ([65279]%N)).
